@@ -2,7 +2,7 @@
    (SQLite + fsbinlog), every result, the final content of every table, and the tables found after reopening
    from the binlog into a fresh database file and into a copy of the file taken at [snap_at]. *)
 From Coq Require Import ZArith List Bool.
-From SH Require Import Common.Wrap Common.Corr Metadata.Model.
+From SH Require Import Common.Wrap Common.Corr Metadata.Model Metadata.JournalModel.
 Import ListNotations.
 Open Scope Z_scope.
 
@@ -114,8 +114,30 @@ Definition obs_eqb (a b : obs) : bool :=
 Definition ohash_eqb (s : option st) (h : option Z) : bool :=
   match s, h with Some s, Some h => hdump s =? h | None, None => true | _, _ => false end.
 
+(* journal long-poll cases: per step the edit's result, the deliveries (client, number of events, hash of the
+   events, CurrentVersion) sorted by client, "registered as waiting", or an RPC edit that failed (any class) *)
+Inductive jobs := JOb (o : obs) | JDel (d : list (Z * Z * Z * Z)) | JWt | JBs | JEr.
+Definition jobs_of (r : jres) : jobs :=
+  match r with
+  | JR x => JOb (obs_of x)
+  | JDeliver d => JDel (map (fun x => let '(i, evs, cur) := x in (Z.of_nat i, Z.of_nat (length evs), hash (flat_map flat_row evs), cur)) d)
+  | JWait => JWt
+  | JBusy => JBs
+  end.
+Definition quad_eqb (a b : Z * Z * Z * Z) : bool :=
+  let '(a1, a2, a3, a4) := a in let '(b1, b2, b3, b4) := b in (a1 =? b1) && (a2 =? b2) && (a3 =? b3) && (a4 =? b4).
+Definition jobs_eqb (a b : jobs) : bool :=
+  match a, b with
+  | JOb x, JOb y => obs_eqb x y
+  | JOb (XSave e _ _ _), JEr => negb (e =? 0)
+  | JDel x, JDel y => list_eqb quad_eqb x y
+  | JWt, JWt | JBs, JBs => true
+  | _, _ => false
+  end.
+
 Inductive case :=
-| CHist (c : cfg) (ops : list op) (rs : list obs) (final : Z) (snap_at : nat) (fresh snap : option Z).
+| CHist (c : cfg) (ops : list op) (rs : list obs) (final : Z) (snap_at : nat) (fresh snap : option Z)
+| CJournal (c : cfg) (froms : list Z) (jops : list jop) (rs : list jobs).
 
 Definition ok_with (v : variant) (cs : case) : bool :=
   match cs with
@@ -126,23 +148,16 @@ Definition ok_with (v : variant) (cs : case) : bool :=
       (hdump s =? final) &&
       ohash_eqb (replay v empty (events v c empty ops)) fresh &&
       ohash_eqb (replay v (tables s1) (events v c s1 (skipn snap_at ops))) snap
+  | CJournal c froms jops rs =>
+      list_eqb jobs_eqb (map jobs_of (fst (jrun v c (empty, map new_client froms) jops))) rs
   end.
 
-(* the code as it is first; then every combination of repaired findings (so that a later fix of any subset of
+(* the tree as it is now ([current]) first, then the pinned code, then every combination of repaired findings (so that a later fix of any subset of
    them in the repository is not reported as a model mismatch) *)
 Definition variants : list variant :=
-  faithful :: flat_map (fun a => flat_map (fun b => flat_map (fun c => map (fun d => Var a b c d) [false; true]) [false; true]) [false; true]) [false; true].
+  current :: faithful :: flat_map (fun a => flat_map (fun b => flat_map (fun c => map (fun d => Var a b c d) [false; true]) [false; true]) [false; true]) [false; true].
 Fixpoint any_variant (l : list variant) (cs : case) : bool :=
   match l with [] => false | v :: t => if ok_with v cs then true else any_variant t cs end.
 Definition ok (cs : case) : bool := any_variant variants cs.
 Definition mism := mismatches ok.
 
-(* diagnostics (used by hand when a case disagrees) *)
-Definition ok_parts (v : variant) (cs : case) :=
-  match cs with
-  | CHist c ops rs final snap_at fresh snap =>
-      let s := run v c empty ops in
-      let s1 := run v c empty (firstn snap_at ops) in
-      (map (fun p => obs_eqb (fst p) (snd p)) (combine (map obs_of (results v c empty ops)) rs),
-       s, replay v empty (events v c empty ops), replay v (tables s1) (events v c s1 (skipn snap_at ops)))
-  end.
